@@ -608,6 +608,9 @@ func TestC07Random(t *testing.T) {
 		if rapid.Bool().Draw(rt, "captive") && kit.PlantCaptive(rt, cfg) {
 			planted = append(planted, "captive-dependency")
 		}
+		if rapid.IntRange(0, 3).Draw(rt, "samector") == 0 && kit.PlantSameCtor(rt, cfg) {
+			planted = append(planted, "same-constructor-registered-again-as-long-lived")
+		}
 		m, err := kit.NewModel(cfg)
 		if err != nil {
 			rt.Fatal(err)
@@ -649,6 +652,22 @@ func TestC08Build(t *testing.T) {
 		cfg := kit.GenConfig(rt, gopts)
 		pct := rapid.SampledFrom([]int{0, 0, 10, 25, 40}).Draw(rt, "droppct")
 		dropped := kit.DropRegs(rt, cfg, pct)
+		// a name-tagged field of a reserved type can never be satisfied (nothing can be registered
+		// for it, and the built-in itself is only served without a name): a missing dependency
+		if rapid.IntRange(0, 5).Draw(rt, "namedBuiltin") == 0 {
+			var cands []int
+			for i := range cfg.Regs {
+				if r := &cfg.Regs[i]; r.Form != kit.FormInstance && !r.HasCtorOf {
+					cands = append(cands, i)
+				}
+			}
+			if len(cands) > 0 {
+				r := &cfg.Regs[rapid.SampledFrom(cands).Draw(rt, "namedBuiltinReg")]
+				r.Deps = append(r.Deps, kit.DepSpec{Builtin: rapid.IntRange(1, 3).Draw(rt, "namedBuiltinKind"), Key: "a"})
+				r.UseIn = true
+				dropped = append(dropped, -1)
+			}
+		}
 		m, err := kit.NewModel(cfg)
 		if err != nil {
 			rt.Fatal(err)
